@@ -563,6 +563,25 @@ func (s *Sim) FaultCount() int {
 	return n
 }
 
+// ProbeN adds n to a probe counter.
+func (s *Sim) ProbeN(name string, n int) {
+	s.mu.Lock()
+	s.res.Probes[name] += n
+	s.mu.Unlock()
+}
+
+// FaultN counts n injected faults of one kind (e.g. enumerated crash cuts)
+// without adding n lines to the event log.
+func (s *Sim) FaultN(kind string, n int) {
+	if n <= 0 {
+		return
+	}
+	s.mu.Lock()
+	s.res.Faults[kind] += n
+	s.mu.Unlock()
+	s.Logf("faults %s x%d", kind, n)
+}
+
 // Capped reports whether the step cap was hit.
 func (s *Sim) Capped() bool { return s.res.Capped }
 
